@@ -399,9 +399,46 @@ func c09Call(c c08Call) string {
 		c09GenMu.Unlock()
 		main, _ := c08Encode(fc)
 		return main
+	case "D", "C":
+		if c.Opts.UnkF || c.Opts.UnkM {
+			// the option values are shared by all goroutines (an option value
+			// is not one of the inputs the property requires to be independent)
+			return c09Decode(c.Entry, c09SharedOpts, c.In.data)
+		}
+		return implDecode(c.Entry, c.Opts, readerSpec{Data: c.In.data}).observable()
 	default:
 		return implDecode(c.Entry, c.Opts, readerSpec{Data: c.In.data}).observable()
 	}
+}
+
+// c09SharedOpts: WithUnknownFields, WithUnknownMessages, created once per process.
+var c09SharedOpts []fit.DecodeOption
+
+// c09Decode is Decode / DecodeChained with the given (shared) option values.
+func c09Decode(entry string, opts []fit.DecodeOption, data []byte) string {
+	var res decOut
+	func() {
+		defer func() {
+			if r := recover(); r != nil {
+				res = decOut{Panic: fmt.Sprint(r)}
+			}
+		}()
+		rd := readerSpec{Data: data}.reader()
+		res.Hdr = "-"
+		if entry == "D" {
+			f, err := fit.Decode(rd, opts...)
+			res.ErrClass = errClass(err)
+			res.Files = []string{canonFile(f)}
+		} else {
+			fs, err := fit.DecodeChained(rd, opts...)
+			res.ErrClass = errClass(err)
+			for _, f := range fs {
+				res.Files = append(res.Files, canonFile(f))
+			}
+		}
+		res.Pos = rd.pos
+	}()
+	return res.observable()
 }
 
 func runC09Race(args []string) int {
@@ -494,6 +531,7 @@ func runC09Race(args []string) int {
 			return fail(err)
 		}
 	}
+	c09SharedOpts = optSet{UnkF: true, UnkM: true}.options()
 	streams, files := spec.Streams, spec.Files
 	for i := range streams {
 		streams[i].data, _ = hex.DecodeString(streams[i].Hex)
